@@ -362,7 +362,9 @@ func FuzzC06(f *testing.F) {
 		f.Add(s)
 	}
 	f.Fuzz(func(t *testing.T, q string) {
-		if f := c06Check(c06Case{Text: q, Want: "total", Variants: []string{q + ";", " " + q}}); f != nil && f.Sig != "spelling-unstable" {
+		c := c06Case{Text: q, Want: "total", Variants: []string{q + ";", " " + q}}
+		if f := safely(c06Check, c); f != nil && f.Sig != "spelling-unstable" {
+			fuzzFail("C06", "arbitrary", c, f)
 			t.Fatalf("%v", f)
 		}
 	})
